@@ -664,7 +664,12 @@ class SSHStreamSession(Generic[AnyStr]):
                     buflen += len(newbuf)
                     curbuf += 1
 
-                if self._read_paused or self._eof_received:
+                # Return a partial result at EOF, or when reading is paused
+                # and this stream holds data which can't grow any further.
+                # With nothing buffered here (another stream of the session
+                # filled the window), wait like read() does rather than
+                # returning an empty result which looks like EOF.
+                if (self._read_paused and buf) or self._eof_received:
                     recv_buf[:curbuf] = []
                     self._recv_buf_len -= buflen
                     self._maybe_resume_reading()
